@@ -31,6 +31,11 @@ def main():
         open(os.path.join(out, 'property.txt'), 'w').write(text)
         extra = ('\nThis is round %s: other people have already tried the most obvious change for this property. Prefer a different code site or '
                  'mechanism than the first one that comes to mind — look through ALL the anchors and the code around them before choosing.\n' % rnd)
+        ms = d['anchors'].get('mechanism', [])
+        if ms and rnd.isdigit() and int(rnd) >= 4:
+            k = (int(rnd) - 3) % len(ms)
+            extra += ('Target specifically this mechanism of the property (one of its code anchors): "%s" at %s. Your change must be in or directly '
+                      'around that code; do not change any other anchor.\n' % (ms[k]['name'], ms[k]['where']))
         open(os.path.join(out, 'PROMPT.txt'), 'w').write(tmpl.replace('@ID@', i).replace('@PROPERTY@', text) + extra)
         print(wt)
 
